@@ -178,15 +178,17 @@ def check(tier, seed, replay=None):
     o = core.Outcome(prop, tier, seed)
     core.build_harness()
     meta = {}
-    tcases, pairs = [], []
+    tcases, pairs, dcases = [], [], []
     if replay:
         c = json.load(open(replay))
-        if "tree" in c:
+        if "dmodel" in c:
+            dcases = [c["dmodel"]]
+        elif "tree" in c:
             tcases = [{"id": c["id"], "tree": c["tree"]}]
         else:
             pairs = [{"id": c["id"].split("/")[0], "a": c["texta"], "b": c["textb"]}]
     else:
-        for fam, nquick in (("d1", 1200), ("d2num", 1800), ("d2log", 2400), ("zero", 2500), ("negsum", 700), ("assoc", 800)):
+        for fam, nquick in (("d1", 1200), ("d2num", 1800), ("d2log", 2400), ("zero", 2500), ("negsum", 700), ("assoc", 800), ("idlog", 2200)):
             cs, g, d = core.gen_cases(SPEC_DIR, "ExprGen.tla", f"Gen_{fam}.cfg", "ex" + fam, workers=8)
             for i, c in enumerate(cs):
                 c["id"] = f"{fam}_{i}"
@@ -208,6 +210,17 @@ def check(tier, seed, replay=None):
         xcases = tree_models(numeric[(seed * 7) % k::k] + negs[seed % kn::kn], seed)
         meta["twins:trees"] = {"cases": len(xcases)}
         pairs = [twins(c, i + seed) for i, c in enumerate(kcases + xcases)]
+        # part 3: models around the trees that hide a division (zero factors, deciding constants, dominated
+        # min / max operands, decided logic comparisons): the compiler must refuse them
+        ps, g, d = core.gen_cases(SPEC_DIR, "ExprGen.tla", "Gen_prune.cfg", "exprune", workers=8)
+        for i, c in enumerate(ps):
+            c["id"] = f"prune_{i}"
+        meta["prune"] = {"cases": len(ps), "gen_states": d, "gen_transitions": g}
+        zeros = [c for c in tcases if c["id"].startswith("zero_")]
+        kz = max(1, len(zeros) // (600 if tier == "quick" else 20000))
+        dcases = []
+        for md in range(4 if tier == "thorough" else 2):
+            dcases += [dict(m, id=f"{m['id']}m{md}") for m in tree_models(ps + zeros[(seed + md) % kz::kz], seed + md)]
     # part 1
     tevents = core.rv_parallel("rewrite", tcases, prop + "-t", procs=8) if tcases else []
     vt = core.validate(SPEC_DIR, "RewriteTrace.tla", "RewriteTrace.cfg", tevents, prop, prop + "-t", chunks=12)
@@ -234,6 +247,17 @@ def check(tier, seed, replay=None):
         which = r[2].split("/")[-1]
         o.violation(f"twin {r[1]} {r[3]}:{pr.get('b')}", rep,
                     f"spelling {which}: {r[3]} ({r[1]})\n--- a ---\n{pr.get('a')}\n--- b ({pr.get('style')}) ---\n{pr.get('b')}\n{ev.get('whya','')} {ev.get('whyb','')}")
+    # part 3
+    devents = core.rv_parallel("lin", dcases, prop + "-d", procs=8) if dcases else []
+    for e in devents:
+        lin.annotate(e, "quick")
+    vd = core.validate(lin.SPEC_DIR, "LinTrace.tla", "LinTrace.cfg", devents, "DIV", prop + "-d", chunks=12)
+    dby = {c["id"]: c for c in dcases}
+    for r in vd.rejects:
+        ev = next((e for e in devents if e["id"] == r[2]), {})
+        o.violation(f"division compiled away:{ev.get('srctext')}", {"id": r[2], "dmodel": dby.get(r[2])},
+                    f"{r[3]}: denominator {r[4]}\n{ev.get('srctext')}\n--- compiled to ---\n{ev.get('text')}")
+    div_refused = sum(1 for e in devents if e.get("out") == "err")
     changed = sum(1 for s in vt.stats if s[4] == 1)
     both_ok = sum(1 for e in pevents if e.get("twin") and e["outa"] == "ok" and e["outb"] == "ok")
     both_err = sum(1 for e in pevents if e.get("twin") and e["outa"] != "ok" and e["outb"] != "ok")
@@ -250,10 +274,13 @@ def check(tier, seed, replay=None):
         "rule": "part 1: trees from spec/rewrite/ExprGen.tla (all of depth <= 1; depth 2 = operator over a depth-1 tree and a leaf), rewritten by the real"
                 " simplify/flatten, compared by value at all assignments ({-2,-1,0,1,2,1/2} numeric, {0,1} Boolean), idempotence, kept denominators;"
                 " part 2: corpus-K models rendered in two spellings (arith constants, named constants, commuted coefficients, unary-minus spellings of subtraction and negative scales) through the text front end,"
-                " both judged against the first spelling's source model (C01/C02 predicates) and for equal acceptance."
+                " both judged against the first spelling's source model (C01/C02 predicates) and for equal acceptance;"
+                " part 3: models around trees that hide a zero or variable denominator (zero factor, deciding logic constant, dominated min / max operand,"
+                " decided logic comparison) through Linearizer::linearize: a model with such a denominator must be refused."
                 " non-trivial = tree actually changed by simplify, or twin pair where both spellings compiled",
         "exhaustive": tier == "thorough" and not replay,
         "trees": len(tevents), "trees_changed_by_simplify": changed,
+        "division_models": len(devents), "division_models_refused": div_refused,
         "twin_pairs": len(pairs), "twin_pairs_both_compiled": both_ok, "twin_pairs_both_rejected": both_err,
         "families": meta,
         "unverifiable_overflow_count": len(vt.overflow_ids) + len(vp.overflow_ids),
